@@ -101,7 +101,7 @@ def m_reach(E, fr, args):
     tag = E.read_cstr(args[0])
     if E.merge_depth: raise MergeAbort('reach in merged call')
     if tag not in E.reached:
-        if E.check():
+        if E.check_uncached():   # not cached: whether this query runs depends on earlier paths
             E.reached[tag] = E.model_values(E.solver.model())
     E.reach_count[tag] = E.reach_count.get(tag, 0) + 1
 
@@ -133,6 +133,22 @@ def m_known(E, fr, args):
         E.add_pc(to_bool(c))
         if not E.check(): raise PathEnd('infeasible')
     return 1
+
+def m_uf(E, fr, args):
+    """verif_uf(name, in, in_len, out, out_len): out bytes := UF_name(in bytes) - an uninterpreted function of the input bytes"""
+    name = E.read_cstr(args[0]); n_in = cint(E, args[2], 'uf in_len'); n_out = cint(E, args[4], 'uf out_len')
+    key = (name, n_in, n_out)
+    f = E.ufs.get(key)
+    if f is None:
+        f = z3.Function('uf_%s_%d_%d' % (name, n_in, n_out), z3.BitVecSort(8 * n_in), z3.BitVecSort(8 * n_out))
+        E.ufs[key] = f
+    bs = E.load_bytes(cint(E, args[1], 'uf in'), n_in)
+    arg = z3.Concat(*[to_bv(b, 8) for b in bs]) if n_in > 1 else to_bv(bs[0], 8)
+    r = f(z3.simplify(arg))
+    out = cint(E, args[3], 'uf out')
+    for i in range(n_out):
+        E.store(out + i, 1, z3.Extract(8 * (n_out - i) - 1, 8 * (n_out - i - 1), r))
+    return None
 
 def m_fail(E, fr, args):
     raise PathEnd('error', 'verif_abort')
@@ -188,6 +204,23 @@ def m_memchr(E, fr, args):
             if b == c: return p + i
         elif E.branch(to_bv(b, 8) == to_bv(c, 8)): return p + i
     return 0
+
+def m_strncmp(bounded):
+    def f(E, fr, args):
+        a = cint(E, args[0], 'strcmp ptr'); b = cint(E, args[1], 'strcmp ptr')
+        n = cint(E, args[2], 'strncmp length') if bounded else (1 << 20)
+        for i in range(n):
+            x = E.load(a + i, 1); y = E.load(b + i, 1)
+            if isinstance(x, int) and isinstance(y, int):
+                if x != y: return 0xffffffff if x < y else 1
+                if x == 0: return 0
+                continue
+            xx = to_bv(x, 8); yy = to_bv(y, 8)
+            if E.branch(xx != yy):
+                return 0xffffffff if E.branch(z3.ULT(xx, yy)) else 1
+            if E.branch(xx == z3.BitVecVal(0, 8)): return 0
+        return 0
+    return f
 
 def m_strlen(E, fr, args):
     p = cint(E, args[0], 'strlen ptr'); i = 0
@@ -413,6 +446,27 @@ def pattern_model(name):
 class _Pat:
     def search(self, name): return pattern_model(name) is not None
 
+
+# ---- std::filesystem::path::_List (component list): only the empty / single-filename representation (tagged null pointer)
+def _fs_tag(E, v):
+    v = cint(E, v, 'path::_List impl pointer')
+    if v & ~3: raise EngineError('std::filesystem::path with a component list is not modelled')
+    return v
+def m_fs_list_ctor(E, fr, args):
+    E.store(args[0], 8, 3); return None
+def m_fs_list_copy(E, fr, args):
+    E.store(args[0], 8, _fs_tag(E, E.load(args[1], 8))); return None
+def m_fs_list_assign(E, fr, args):
+    E.store(args[0], 8, _fs_tag(E, E.load(args[1], 8))); return args[0]
+def m_fs_impl_delete(E, fr, args):
+    _fs_tag(E, args[1]); return None
+def m_fs_split_cmpts(E, fr, args):
+    ln = cint(E, E.load(args[0] + 8, 8), 'path length')
+    if ln != 0: raise EngineError('std::filesystem::path with non-empty text is not modelled')
+    E.store(args[0] + 32, 8, 3); return None
+def m_fs_list_clear(E, fr, args):
+    _fs_tag(E, E.load(args[0], 8)); return None
+
 def install(E):
     M = E.models
     for w, n in ((8, 'u8'), (16, 'u16'), (32, 'u32'), (64, 'u64'), (1, 'bool')):
@@ -420,14 +474,14 @@ def install(E):
     M['nondet_bytes'] = m_nondet_bytes
     M['verif_assume'] = m_assume; M['verif_assert'] = m_assert; M['verif_observe'] = m_observe
     M['verif_reach'] = m_reach; M['verif_note'] = m_note; M['verif_concretize'] = m_concretize
-    M['verif_is_symbolic'] = m_is_symbolic; M['verif_abort'] = m_fail; M['verif_known'] = m_known
+    M['verif_uf'] = m_uf; M['verif_is_symbolic'] = m_is_symbolic; M['verif_abort'] = m_fail; M['verif_known'] = m_known
     E.kf_mode = {}; E.kf_seen = set()
     E.reach_count = {}
     for n in ('_Znwm', '_Znam', '_ZnwmRKSt9nothrow_t', '_ZnamRKSt9nothrow_t', 'malloc', '_ZnwmSt11align_val_t', '_ZnamSt11align_val_t'): M[n] = m_new
     for n in ('_ZdlPv', '_ZdaPv', '_ZdlPvm', '_ZdaPvm', 'free', '_ZdlPvSt11align_val_t', '_ZdlPvmSt11align_val_t', '_ZdaPvSt11align_val_t'): M[n] = m_delete
     M['calloc'] = m_calloc; M['realloc'] = m_realloc
     M['memcpy'] = m_memcpy; M['memmove'] = m_memcpy; M['memset'] = m_memset
-    M['memcmp'] = m_memcmp; M['bcmp'] = m_memcmp; M['memchr'] = m_memchr; M['strlen'] = m_strlen
+    M['memcmp'] = m_memcmp; M['bcmp'] = m_memcmp; M['memchr'] = m_memchr; M['strlen'] = m_strlen; M['strncmp'] = m_strncmp(True); M['strcmp'] = m_strncmp(False)
     M['iscntrl'] = range_pred_model([(0, 31), (127, 127)])
     M['isdigit'] = range_pred_model([(48, 57)])
     M['isspace'] = range_pred_model([(9, 13), (32, 32)])
@@ -474,6 +528,12 @@ def install(E):
     M['_ZSt27__throw_bad_optional_accessv'] = thrower('_ZTISt19bad_optional_access')
     M['_ZSt20__throw_system_errori'] = thrower('_ZTISt12system_error')
     M['_ZSt16__throw_bad_castv'] = thrower('_ZTISt8bad_cast')
+    M['_ZNSt10filesystem7__cxx114path5_ListC1Ev'] = m_fs_list_ctor; M['_ZNSt10filesystem7__cxx114path5_ListC2Ev'] = m_fs_list_ctor
+    M['_ZNSt10filesystem7__cxx114path5_ListC1ERKS2_'] = m_fs_list_copy; M['_ZNSt10filesystem7__cxx114path5_ListC2ERKS2_'] = m_fs_list_copy
+    M['_ZNSt10filesystem7__cxx114path5_ListaSERKS2_'] = m_fs_list_assign
+    M['_ZNKSt10filesystem7__cxx114path5_List13_Impl_deleterclEPNS2_5_ImplE'] = m_fs_impl_delete
+    M['_ZNSt10filesystem7__cxx114path5_List5clearEv'] = m_fs_list_clear
+    M['_ZNSt10filesystem7__cxx114path14_M_split_cmptsEv'] = m_fs_split_cmpts
     E.model_patterns = [(_Pat(), None)]
     def mbp(name):
         return pattern_model(name)
